@@ -7,33 +7,33 @@ namespace IastModel
 
 /-! ### generate_prefix_stmts (after the template has been parsed; every span is erased) -/
 
-private def d : Span := Span.dummy
-private def uid (s : String) : Node := .ident (.user s) d
+def pd : Span := Span.dummy
+def puid (s : String) : Node := .ident (.user s) pd
 
 /-- the parsed prologue template with `__CSI_METHODS__` replaced by `dst: noop` for every configured
     method, in order.  Precondition for agreement with the code: every `dst` is an identifier name
     (the Rust code splices the text and re-parses it; anything else parses differently or not at all). -/
 def prologue (dsts : List String) : List Node :=
-  let noopDecl : Node := .other "VariableDeclaration" d ["kind", "declare", "declarations"]
+  let noopDecl : Node := .other "VariableDeclaration" pd ["kind", "declare", "declarations"]
     [.atom "\"const\"", .atom "false",
-     .arr [.other "VariableDeclarator" d ["id", "init", "definite"]
-       [uid "noop",
-        .arrow [uid "res"] (uid "res") "{\"async\":false,\"generator\":false,\"typeParameters\":null,\"returnType\":null}" d,
+     .arr [.other "VariableDeclarator" pd ["id", "init", "definite"]
+       [puid "noop",
+        .arrow [puid "res"] (puid "res") "{\"async\":false,\"generator\":false,\"typeParameters\":null,\"returnType\":null}" pd,
         .atom "false"]]]
-  let table : Node := .other "ObjectExpression" d ["properties"]
-    [.arr (dsts.map fun k => .other "KeyValueProperty" d ["key", "value"] [.pname k d, uid "noop"])]
-  let gd : Node := .member (uid "globals") (.pname Generated.ddGlobalNamespace d) d
-  let assignStmt : Node := .exprStmt (.assign "=" gd (.bin "||" gd table d) d) d
-  let fn : Node := .other "FunctionExpression" d
+  let table : Node := .other "ObjectExpression" pd ["properties"]
+    [.arr (dsts.map fun k => .other "KeyValueProperty" pd ["key", "value"] [.pname k pd, puid "noop"])]
+  let gd : Node := .member (puid "globals") (.pname Generated.ddGlobalNamespace pd) pd
+  let assignStmt : Node := .exprStmt (.assign "=" gd (.bin "||" gd table pd) pd) pd
+  let fn : Node := .other "FunctionExpression" pd
     ["identifier", "params", "decorators", "body", "generator", "async", "typeParameters", "returnType"]
-    [.atom "null", .arr [.other "Parameter" d ["decorators", "pat"] [.arr [], uid "globals"]], .arr [],
-     .block [noopDecl, assignStmt] d, .atom "false", .atom "false", .atom "null", .atom "null"]
-  let thisArg : Node := .call (.paren (.seq [.lit "NumericLiteral" "{\"value\":1.0,\"raw\":\"1\"}" "" d, uid "eval"] d) d)
-    [.arg none (.lit "StringLiteral" "this" "'this'" d)] d
-  [ .other "EmptyStatement" d [] [],
-    .ifStmt (.bin "===" (.unary "typeof" (uid Generated.ddGlobalNamespace) d) (.lit "StringLiteral" "undefined" "'undefined'" d) d)
-      (.exprStmt (.paren (.call fn [.arg none thisArg] d) d) d)
-      (.atom "null") d ]
+    [.atom "null", .arr [.other "Parameter" pd ["decorators", "pat"] [.arr [], puid "globals"]], .arr [],
+     .block [noopDecl, assignStmt] pd, .atom "false", .atom "false", .atom "null", .atom "null"]
+  let thisArg : Node := .call (.paren (.seq [.lit "NumericLiteral" "{\"value\":1.0,\"raw\":\"1\"}" "" pd, puid "eval"] pd) pd)
+    [.arg none (.lit "StringLiteral" "this" "'this'" pd)] pd
+  [ .other "EmptyStatement" pd [] [],
+    .ifStmt (.bin "===" (.unary "typeof" (puid Generated.ddGlobalNamespace) pd) (.lit "StringLiteral" "undefined" "'undefined'" pd) pd)
+      (.exprStmt (.paren (.call fn [.arg none thisArg] pd) pd) pd)
+      (.atom "null") pd ]
 
 /-! ### transform_js -/
 
